@@ -13,7 +13,7 @@ RULE = ("(a) TLC: AnkoEnvConc (each API call as the micro-program of RWMutex ope
         "distinct = distinct (program tuple, initial table, outcome) triples observed on the real code.")
 
 ALPHA_FULL = [("Define", "x", 1), ("Set", "x", 2), ("Get", "x", 0), ("Delete", "x", 0), ("DeleteGlobal", "x", 0),
-              ("Copy", "", 0), ("Symbols", "", 0), ("Addr", "x", 0), ("Get", "p", 0)]
+              ("Copy", "", 0), ("Symbols", "", 0), ("Addr", "x", 0), ("Get", "p", 0), ("Get", "ext", 0)]
 ALPHA_CORE = ALPHA_FULL[:6]
 ALPHA_W = [("Define", "x", 1), ("Set", "x", 2), ("Delete", "x", 0), ("DeleteGlobal", "x", 0), ("Copy", "", 0), ("Define", "y", 3)]
 TABS = [{"k": [], "v": []}, {"k": ["x"], "v": [5]}]
@@ -137,6 +137,8 @@ def run_shards(ctx, binp, mode, cfg, tag, env=None, nshards=None, timeout=1800):
 
 def check_outcomes(ctx, binp, lines, tag, gated):
     """Deadlocks -> violations; outcomes -> TLC linearizability check."""
+    for l in lines:
+        l["outcomes"] = l.get("outcomes") or []
     nsched = sum(l["schedules"] for l in lines)
     nout = sum(len(l["outcomes"]) for l in lines)
     ctx.cov["%s_program_tuples" % tag] = len(lines)
@@ -270,6 +272,8 @@ def run(ctx):
         ctx.log("%s: %d tuples, %d schedules" % (tag, len(lines), sum(l["schedules"] for l in lines)))
         if first is None:
             first = lines
+            for x in lines:
+                x["outcomes"] = x.get("outcomes") or []
             l = [x for x in first if len(x["outcomes"]) > 2][:1] or first[:1]
             ctx.sample({"kind": "program tuple explored under every schedule on the real code", "progs": l[0]["progs"], "tab0": l[0]["tab0"],
                         "schedules": l[0]["schedules"], "distinct_outcomes": [{k: o[k] for k in ("c", "res")} for o in l[0]["outcomes"]][:4]})
@@ -290,6 +294,22 @@ def run(ctx):
             vlib.violation(ctx, "data race inside package env reported by the race detector: " + race_key(race), payload)
         else:
             check_outcomes(ctx, binr, lines, "race", gated=False)
+    if not ctx.violations:
+        # three scopes in a chain, all of them read and written at once (beyond the model's two scopes): race detector only
+        n3 = 3000 if ctx.quick() else 40000
+        e = vlib.goenv(); e.update({"GORACE": "exitcode=66 halt_on_error=1"})
+        ps = [subprocess.Popen([binr, "chain3", str(n3 // 8)], env=e, stdout=subprocess.PIPE, stderr=subprocess.PIPE, text=True) for _ in range(8)]
+        for p in ps:
+            so, se = p.communicate(timeout=1800)
+            if p.returncode == 66 or "WARNING: DATA RACE" in se:
+                vlib.violation(ctx, "data race inside package env (three-scope chain) reported by the race detector: " + race_key(se), {"kind": "race", "report": se[:6000], "finding_key": race_key(se)})
+                break
+            if p.returncode != 0:
+                if "concurrent map" in se:
+                    vlib.violation(ctx, "the runtime detected unsynchronised access to a scope's table (three-scope chain): " + se[:200], {"kind": "race", "report": se[:6000]})
+                    break
+                raise Broken("envconc chain3 failed rc=%d: %s" % (p.returncode, se[-1500:]))
+        ctx.cov["race_detector_chain3_rounds"] = n3
     return vlib.finish(ctx, RULE, exhaustive=True)
 
 
